@@ -56,6 +56,10 @@ def make_container(a, kind):
         return v
     if kind == "fortran":
         return np.asfortranarray(a)
+    if kind == "ilist":      # integer-valued points written the natural way: [0, 1, 2]
+        return np.rint(a).astype(int).tolist()
+    if kind == "iarr":       # ... or as np.arange(...)
+        return np.rint(a).astype(np.int64)
     raise ValueError(kind)
 
 
